@@ -36,7 +36,9 @@ monitors! {
     "C04" => c04,
     "C05" => c05,
     "C08" => c08,
+    "C09" => c09,
     "C10" => c10,
+    "C11" => c11,
     "C12" => c12,
     "C13" => c13,
     "C14" => c14,
